@@ -7,7 +7,7 @@ open Apko Apko.Path
 
 /-! ### names the code can produce -/
 
-theorem splitOnChar_no_sep (sep : Char) : ∀ (t : Text), ∀ x ∈ splitOnChar sep t, sep ∉ x := by
+theorem splitOnChar_parts_no_sep (sep : Char) : ∀ (t : Text), ∀ x ∈ splitOnChar sep t, sep ∉ x := by
   intro t
   induction t with
   | nil => intro x hx; simp [splitOnChar] at hx; subst hx; simp
@@ -45,7 +45,7 @@ theorem mem_takeWhile_sat {α : Type} (p : α → Bool) (l : List α) (a : α) (
 theorem parts_ok (p : Text) : ∀ x ∈ parts p, x ≠ [] ∧ '/' ∉ x := by
   intro x hx
   simp only [parts, List.mem_filter, decide_eq_true_eq] at hx
-  exact ⟨hx.2, splitOnChar_no_sep '/' p x hx.1⟩
+  exact ⟨hx.2, splitOnChar_parts_no_sep '/' p x hx.1⟩
 
 theorem dotName_false {b : Name} (h : dotName b = false) : b ≠ dot ∧ b ≠ dotdot ∧ b ≠ slash := by
   simp only [dotName, Bool.or_eq_false_iff, decide_eq_false_iff_not] at h
